@@ -315,6 +315,7 @@ def run_to_completion(state: State, external_event: Union[dict, Event]) -> State
                 heads_matching: List[FlowHead] = []
                 heads_not_matching: List[FlowHead] = []
                 heads_failing: List[FlowHead] = []
+                heads_with_error: List[FlowHead] = []
 
                 # Iterate over all potential head candidates and check if we have an event match
                 for flow_state_uid, head_uid in head_candidates:
@@ -322,9 +323,29 @@ def run_to_completion(state: State, external_event: Union[dict, Event]) -> State
                     head = flow_state.heads[head_uid]
                     element = get_element_from_head(state, head)
                     if element is not None and is_match_op_element(element):
-                        matching_score = _compute_event_matching_score(
-                            state, flow_state, head, event
-                        )
+                        try:
+                            matching_score = _compute_event_matching_score(
+                                state, flow_state, head, event
+                            )
+                        except Exception as e:
+                            # A runtime error in a match statement (e.g. an invalid pattern)
+                            # must only fail the related flow and not the event processing
+                            log.warning(
+                                "Flow '%s' failed due to Colang runtime exception in match statement: %s",
+                                flow_state.flow_id,
+                                e,
+                                exc_info=True,
+                            )
+                            colang_error_event = Event(
+                                name="ColangError",
+                                arguments={
+                                    "type": str(type(e).__name__),
+                                    "error": str(e),
+                                },
+                            )
+                            _push_internal_event(state, colang_error_event)
+                            heads_with_error.append(head)
+                            continue
 
                         if matching_score > 0.0:
                             # Successful event match
@@ -380,6 +401,10 @@ def run_to_completion(state: State, external_event: Union[dict, Event]) -> State
                 if isinstance(event, ActionEvent):
                     # Update actions status in all active flows by current action event
                     _update_action_status_by_event(state, event)
+
+                # Abort all flows with a runtime error in the match statement
+                for head in heads_with_error:
+                    _abort_flow(state, get_flow_state_from_head(state, head), [])
 
                 # Abort all flows with a mismatch
                 for head in heads_failing:
